@@ -57,16 +57,16 @@ func allSpecs() map[string]*PropSpec {
 	})
 	add(&PropSpec{
 		ID:          "C14",
-		Explanation: "C-ORDER: may-lockset dataflow over SSA (interprocedural, through closures via the VTA call graph): no mutex is acquired while it may already be held (incl. nested read locks), and the held->acquired graph is acyclic. C-BLOCK: client methods whose implementation awaits a response are never reachable from a handler without a go statement and never called with a lock held; notifications are sent with at most the publication lock held. C-LOCKSET: every field of the long-lived shared structs that is written outside the initialisation phase and accessed from a server-started goroutine has a common lock over all its accesses (must-lockset). C-LEAK: getters that hand out a guarded map/pointer field are listed; in-place mutation of a handed-out object and writes through a handed-out reference are reported. C-ROOTS.",
+		Explanation: "C-ORDER: may-lockset dataflow over SSA (interprocedural, through closures via the VTA call graph): no mutex is acquired while it may already be held (incl. nested read locks), and the held->acquired graph is acyclic. C-BLOCK: client methods whose implementation awaits a response are never reachable from a handler without a go statement and never called with a lock held; notifications are sent with at most the publication lock held. C-LOCKSET: every field of the long-lived shared structs that is written outside the initialisation phase and accessed from a server-started goroutine has a common lock over all its accesses (must-lockset). C-LEAK: getters that hand out a guarded map/pointer field are listed; in-place mutation of a handed-out object and writes through a handed-out reference are reported. C-RMW: a value stored into lock-protected shared state (field, map element, sync.Map entry) never derives - through callees' results or callers' arguments - from a read of the same field made in a different critical section when some writer of the field runs on a server-started goroutine (no lost update). C-ROOTS.",
 		NotDecided:  "races inside third-party libraries; aliasing beyond the field-based abstraction; that each response equals the state at handling time as a value.",
 		Assumptions: []string{"Initialize is handled before any other message (LSP lifecycle)", "handlers are dispatched serially by jsonrpc2 (re-checked by C-ROOTS)"},
-		Rules:       []func(*Ctx){ruleConcRoots, ruleLockOrder, ruleBlock, ruleLockset, ruleLeak},
+		Rules:       []func(*Ctx){ruleConcRoots, ruleLockOrder, ruleBlock, ruleLockset, ruleLeak, ruleRMW},
 	})
 	add(&PropSpec{
 		ID:          "C19",
-		Explanation: "T6: every leaf of the settings struct (enumerated from the type definitions) is assigned by the settings parser in a nested-key and a dotted-key form with the same spelling, each assignment guarded by its converter's ok result and fed from the converted value (ill-typed or unknown entries leave the previous value unchanged); no key feeds two leaves; every numeric leaf has a non-positive guard in the normaliser; every leaf is read by some feature outside the parser. C19-CONVERT: converters accept by type only (no range filter that would bypass the normaliser's default fallback, boolean spellings true/false only). C19-TOTAL: no module function reachable from the settings parser contains an unchecked assertion, index, slice, non-constant division or panic, and its recursion is on a member of its argument. C-LOCKSET on the settings struct and atomic read-modify-write of a refresh (C-RMW).",
+		Explanation: "T6: every leaf of the settings struct (enumerated from the type definitions) is assigned by the settings parser in a nested-key and a dotted-key form with the same spelling, each assignment guarded by its converter's ok result and fed from the converted value (ill-typed or unknown entries leave the previous value unchanged); no key feeds two leaves; every numeric leaf has a non-positive guard in the normaliser; every leaf is read by some feature outside the parser. C19-CONVERT: converters accept by type only (no range filter that would bypass the normaliser's default fallback, boolean spellings true/false only). C19-TOTAL: no module function reachable from the settings parser contains an unchecked assertion, index, slice, non-constant division or panic, and its recursion is on a member of its argument. C-LOCKSET on the settings struct; C-RMW: a configuration refresh reads the current settings, overlays the payload and stores the result inside one critical section, so that of two concurrent refreshes neither loses the other's recognised values.",
 		NotDecided:  "feature switches after initialisation (capabilities are computed once in Initialize); that a recognised value changes behaviour in the intended way (value semantics of each feature).",
-		Rules:       []func(*Ctx){ruleSettings, ruleLockset},
+		Rules:       []func(*Ctx){ruleSettings, ruleLockset, ruleRMW},
 	})
 	wsFresh := []func(*Ctx){ruleT1T2, ruleC12Clear, ruleC12Refresh, ruleC12Pair}
 	add(&PropSpec{
